@@ -106,6 +106,7 @@ namespace VizierModel.Wire
 section
 variable {κ ι α : Type} [DecidableEq κ] [DecidableEq ι]
 
+omit [DecidableEq κ] in
 theorem flat_cons (g : κ × List α) (cs : List (κ × List α)) :
     flat (g :: cs) = (g.2.map fun a => (g.1, a)) ++ flat cs := by
   simp [flat]
